@@ -270,7 +270,7 @@ Fork ==
   /\ C0' = C' /\ P0' = P /\ phase' = "run"
   /\ UNCHANGED <<pre, post, P>>
 
-ChildStep(j) ==
+ChildStepOf(j) ==
   /\ phase = "run" /\ Len(chs[j]) < MaxChild /\ Total < MaxTotal
   /\ \E c \in Alphabet :
        /\ En(c, C[j], Roles(kind)[j])
@@ -295,7 +295,7 @@ Finish == /\ phase = "run" /\ phase' = "done"
 
 (* NEGATIVE TEST ONLY: the child's variables are the parent's (a shared     *)
 (* reference instead of a copy).                                            *)
-LeakStep(j) ==
+LeakStepOf(j) ==
   /\ Leaky /\ phase = "run" /\ Len(chs[j]) < MaxChild /\ Total < MaxTotal
   /\ En("a=2", C[j], Roles(kind)[j])
   /\ C' = [C EXCEPT ![j] = Ap("a=2", C[j], "-")]
@@ -303,8 +303,10 @@ LeakStep(j) ==
   /\ chs' = [chs EXCEPT ![j] = Append(@, "a=2")]
   /\ UNCHANGED <<phase, kind, pre, post, P0, C0>>
 
-Next == \/ PreStep \/ Fork \/ ParentStep \/ Finish
-        \/ \E j \in 1..Len(chs) : ChildStep(j) \/ LeakStep(j)
+ChildStep == \E j \in 1..Len(chs) : ChildStepOf(j)
+LeakStep  == \E j \in 1..Len(chs) : LeakStepOf(j)
+
+Next == PreStep \/ Fork \/ ParentStep \/ Finish \/ ChildStep \/ LeakStep
 
 Spec == Init /\ [][Next]_vars
 
